@@ -6,6 +6,7 @@ import SideVerif.Drive.C16
 import SideVerif.Drive.C18
 import SideVerif.Drive.C13
 import SideVerif.Drive.C02
+import SideVerif.Drive.C03
 open Lean
 namespace SideVerif.Drive
 
@@ -21,6 +22,7 @@ def dispatch (op : String) (j : Json) : Except String Json :=
   | "c18" => c18 j
   | "c13" => c13 j
   | "c02" => c02 j
+  | "c03" => c03 j
   | "ping" => pure (Json.str "pong")
   | _ => throw s!"unknown op {op}"
 
